@@ -263,6 +263,44 @@ def instantiate(toks, P, seed, template, effects=False):
             si = pg.stmt({"k": "nop", "x": sname, "e": gi, "fx": "sigset", "exported": True, "constrains": False})
             lines.append((ind, "%s <-- in1;" % sname, [(gi, 0, 3)], si, len("%s <-- " % sname)))
             return si
+        if t in ("Gt", "At", "It"):
+            # SemChains.tla, family `viasig`: the first local flows into an intermediate signal (`t <-- acc`, no constraint), and only
+            # that signal is read by an assertion / a branch condition: the local reaches a sink through a signal that is neither exported
+            # nor a constraint partner
+            if t == "Gt":
+                v = pg.locals_[0]
+                vi = pg.node({"k": "var", "x": v})
+                pg.nsig += 1
+                sname = "t%d" % pg.nsig
+                pg.signals.append((sname, True))
+                pg.via = sname
+                si = pg.stmt({"k": "nop", "x": sname, "e": vi, "fx": "sigset", "exported": False, "constrains": False})
+                lines.append((ind, "%s <-- %s;" % (sname, v), [(vi, 0, len(v))], si, len("%s <-- " % sname)))
+                return si
+            sname = pg.via
+            lv = rnd.choice([0, 1, 2])
+            op = rnd.choice(["eq", "not_eq"])
+            ci, li = pg.node({"k": "sigv", "x": sname}), pg.node({"k": "num", "v": lv})
+            ei = pg.node({"k": "bin", "op": op, "l": ci, "r": li})
+            et = "%s %s %d" % (sname, BINOPS[op], lv)
+            rg = [(ci, 0, len(sname)), (li, len(et) - 1, len(et)), (ei, 0, len(et))]
+            if t == "At":
+                si = pg.stmt({"k": "nop", "e": ei, "fx": "assert"})
+                lines.append((ind, "assert(%s);" % et, rg, si, len("assert(")))
+                return si
+            # It: `if (t == k) { o <-- in1; }`
+            si = pg.stmt({"k": "if", "e": ei})
+            lines.append((ind, "if (%s) {" % et, rg, si, len("if (")))
+            pg.nsig += 1
+            oname = "o%d" % pg.nsig
+            pg.signals.append((oname, False))
+            gi = pg.node({"k": "sig", "v": 1, "x": "in1"})
+            bi = pg.stmt({"k": "nop", "x": oname, "e": gi, "fx": "sigset", "exported": True, "constrains": False})
+            lines.append((ind + 1, "%s <-- in1;" % oname, [(gi, 0, 3)], bi, len("%s <-- " % oname)))
+            body = pg.stmt({"k": "blk", "kids": [bi]})
+            pg.stmts[si - 1]["t"] = body
+            lines.append((ind, "}", [], 0, 0))
+            return si
         if t == "SK":
             # SemChains.tla, family `const`: the same constant assigned to the (uninitialised) first local
             v = pg.locals_[0]
